@@ -64,6 +64,8 @@ type HarnessStats struct {
 	Wall         time.Duration
 	Witnesses    []*Replay // models of completed paths for native validation
 	Cross        map[string]string
+	IntQueries   int
+	BVQueries    int
 	PanicPaths   int
 	MaxPathSteps int
 }
@@ -183,7 +185,13 @@ func RunHarness(prog *ssa.Program, fn *ssa.Function, initPkgs []*ssa.Package, cf
 		return st
 	}
 	defer solver.Close()
-	ex := &Exec{prog: prog, tf: tf, solver: solver, maxSteps: cfg.MaxSteps, maxDepth: cfg.MaxDepth, harness: fn.Name(), stats: st, tier: cfg.Tier}
+	isolver, err := NewIntSolver("z3", tf, cfg.TimeoutMs)
+	if err != nil {
+		isolver = nil
+	} else {
+		defer isolver.Close()
+	}
+	ex := &Exec{prog: prog, tf: tf, solver: solver, isolver: isolver, maxSteps: cfg.MaxSteps, maxDepth: cfg.MaxDepth, harness: fn.Name(), stats: st, tier: cfg.Tier}
 	ex.initIntrinsics()
 	ex.initPkgs = initPkgs
 
@@ -205,6 +213,11 @@ func RunHarness(prog *ssa.Program, fn *ssa.Function, initPkgs []*ssa.Package, cf
 	}
 	st.SolverTime = solver.Time
 	st.SolverQ = solver.Queries
+	if isolver != nil {
+		st.SolverTime += isolver.Time
+		st.SolverQ += isolver.Queries
+		solver.Errors += isolver.Errors
+	}
 	if solver.Errors > 0 {
 		st.Inconclusive = append(st.Inconclusive, fmt.Sprintf("solver printed %d (error lines", solver.Errors))
 	}
@@ -266,7 +279,7 @@ func (ex *Exec) runPath(fn *ssa.Function, forced []int64, cfg RunConfig) {
 		// an unexpected Go panic on a feasible path is a violation of the implicit no-panic obligation
 		st.PanicPaths++
 		st.Obligations++
-		r, m := ex.solver.Check(ex.pc, true)
+		r, m := ex.check(ex.pc, true)
 		if r == Sat {
 			ex.violation("panic", "no-panic", "panic: "+panicMsg, m)
 		} else if r == Unknown {
@@ -284,7 +297,7 @@ func (ex *Exec) runPath(fn *ssa.Function, forced []int64, cfg RunConfig) {
 		st.Inconclusive = append(st.Inconclusive, fmt.Sprintf("%d branch feasibility queries returned unknown", ex.unknownBranches))
 	}
 	if len(st.Witnesses) < cfg.Witnesses {
-		r, m := ex.solver.Check(ex.pc, true)
+		r, m := ex.check(ex.pc, true)
 		if r == Sat {
 			rp := ex.buildReplay(m)
 			rp.Expect = "ok"
